@@ -228,5 +228,45 @@ func solveAll(obls []*Oblig, workdir string, timeoutS int, agree bool, par int) 
 		}(o)
 	}
 	wg.Wait()
+	if firstErr != nil {
+		return firstErr
+	}
+	// second pass: whatever stayed undecided is tried again, few at a time and with four times the budget, so that a
+	// loaded machine (other checks running beside this one) does not turn a dischargeable obligation into an alarm
+	var again []*Oblig
+	for _, o := range obls {
+		if o.Result == "unknown" && o.Err == "" && !o.retried {
+			again = append(again, o)
+		}
+	}
+	if len(again) == 0 || len(again) > 40 {
+		return nil
+	}
+	sem2 := make(chan struct{}, 3)
+	for _, o := range again {
+		o.retried = true
+		prev := *o
+		o.relaxed, o.candidate, o.Time, o.Model, o.Result = false, false, 0, "", ""
+		wg.Add(1)
+		sem2 <- struct{}{}
+		go func(o *Oblig, prev Oblig) {
+			defer wg.Done()
+			defer func() { <-sem2 }()
+			if err := solve(o, workdir, timeoutS*4, agree); err != nil {
+				mu.Lock()
+				if firstErr == nil {
+					firstErr = err
+				}
+				mu.Unlock()
+			}
+			if o.Result == "unknown" && !o.candidate && prev.candidate {
+				// keep the more informative first answer
+				t := o.Time
+				*o = prev
+				o.Time += t
+			}
+		}(o, prev)
+	}
+	wg.Wait()
 	return firstErr
 }
